@@ -181,3 +181,25 @@ Example hex_example :
   parse [48;56; 32; 59;32;116;97;103; 10; 32;32; 54;52; 9; 59; 120; 10; 65;50;32;48;54]%N = Some [8; 100; 162; 6]%N.
 Proof. vm_compute. reflexivity. Qed.
 Print Assumptions parse_render.
+
+(* ---------- an independent reading of the format: one pass with an "inside a comment" flag ---------- *)
+(* the characters that count: outside comments, not white space; line structure kept (a byte's two
+   digits must be on one line) *)
+Fixpoint sig_lines (s : list rune) (in_comment : bool) (cur : list rune) : list (list rune) :=
+  match s with
+  | [] => [rev cur]
+  | c :: t =>
+    if c =? NL then rev cur :: sig_lines t false []
+    else if in_comment then sig_lines t true cur
+    else if c =? SEMI then sig_lines t true cur
+    else if is_space c then sig_lines t false cur
+    else sig_lines t false (c :: cur)
+  end.
+Definition is_hex (c : rune) : bool := match hexval c with Some _ => true | None => false end.
+(* value of a line of significant characters: pairs of hex digits *)
+Fixpoint pairs_value (l : list rune) : list byte :=
+  match l with
+  | a :: b :: t => (16 * hv a + hv b) :: pairs_value t
+  | _ => []
+  end.
+Definition line_ok (l : list rune) : bool := forallb is_hex l && Nat.even (length l).
